@@ -154,9 +154,8 @@ func fieldValues(d []byte, o int, small int, wrap bool) []Mut {
 // only in such files: the library cannot write the compact layout).
 type objTarget struct{ base, owner string }
 
-var objTargetsQuick = []objTarget{{"corpus/hdf5_official/h5copytst.h5", "/compact"}}
-var objTargetsThorough = []objTarget{{"corpus/hdf5_official/h5copytst_new.h5", "/compact"}, {"corpus/hdf5_official/h5repack_layout.h5", "/dset_compact"},
-	{"corpus/hdf5_official/tfilters.h5", "/compact"}}
+var objTargetsQuick = []objTarget{{"gen/compact_only", "/compact"}}
+var objTargetsThorough = []objTarget{{"corpus/hdf5_official/h5repack_layout.h5", "/dset_compact"}}
 
 var enumFilesQuick = []string{"corpus/v0.h5", "corpus/compound_test.h5", "corpus/v2.h5", "corpus/with_groups.h5"}
 var enumFilesThorough = []string{"corpus/string_test.h5", "corpus/test_attributes.h5", "corpus/multiple_datasets.h5", "corpus/test_3d_chunked.h5",
